@@ -322,6 +322,12 @@ def persistent_state(ck, rule):
     for f in fns:
         if f.qualname not in wreach or f.is_lambda:
             continue
+        mk = E.memoised_with_incomplete_key(p, f)
+        if mk is not None:
+            ck.violation(rule, f"{short(f)}:memo-key", f.where,
+                         f"`{short(f)}` is memoised ({mk[0]}) in worker-reachable code but reads self.{', self.'.join(mk[1])}, which is "
+                         f"{mk[2]}: what it returns for one object depends on which equal-looking object the process saw first",
+                         found=f"@{mk[0]} on a method reading {mk[1]}", required="every input of a memoised function is part of its key")
         for pname, dflt, mnode in E.mutated_mutable_defaults(f):
             if not E.default_is_used(ctx, f, pname):
                 continue
